@@ -251,6 +251,13 @@ def rule4(ctx, prog, flows, full):
             ctx.require(ok and dflt_false, "R-C08-4", "cutoff-strict", "a candidate is pruned only when candidate > cutoff (strict), never without a cutoff", "cutoff prune is not the strict candidate > cutoff: %s, default=%s -- entries with distance == cutoff would be dropped or kept wrongly" % (why, fmt_desc(d0)), loc_str(t.span))
     if not found:
         ctx.anchor_lost("R-C08-4", "cutoff.map_or(false, |c| candidate > c) in the full kernel")
+    # the cutoff may only decide the prune: it must not flow (as data) into distances, seen marks or heap entries
+    for nm in ("dist", "seen", "fringe"):
+        ls = full.locals_named(nm)
+        if len(ls) != 1:
+            continue
+        dsl = fl.slice_local([L(ls[0])], data_only=True)
+        ctx.require(L(cut) not in dsl, "R-C08-4", "cutoff-not-data|" + nm, "`%s` holds no value derived from the cutoff" % nm, "`%s` is initialised/updated with a value derived from the cutoff: the cutoff then changes which entries are found instead of merely pruning candidates beyond it (entries at exactly the cutoff distance can be lost)" % nm, loc_str(full.span))
     # target exit after finalisation
     tgt = full.param_local("target")
     dist_l = full.locals_named("dist")
